@@ -91,8 +91,34 @@ def _isnumber(env, sheet, args):
     return R.is_num(v)
 
 
+def _truth(v):
+    if isinstance(v, bool):
+        return v
+    if R.is_num(v):
+        return v != 0
+    return R.UNDEF
+
+
+def _logic(kind):
+    def f(env, sheet, args):
+        vals = []
+        for a in args:
+            v = R.evaluate(a, env, sheet)
+            if isinstance(v, R.Err):
+                return v if not vals or kind == 'NOT' else R.UNDEF
+            t = _truth(v)
+            if t is R.UNDEF:
+                return R.UNDEF
+            vals.append(t)
+        if kind == 'NOT':
+            return not vals[0]
+        return all(vals) if kind == 'AND' else any(vals)
+    return f
+
+
 FUNCS = {'SUM': _sum, 'MAX': _max, 'MIN': _min, 'IF': _if,
-         'ISNUMBER': _isnumber}
+         'ISNUMBER': _isnumber, 'AND': _logic('AND'), 'OR': _logic('OR'),
+         'NOT': _logic('NOT')}
 
 
 def _q(sheet, a1, from_sheet):
@@ -234,6 +260,13 @@ def _formula(d, sheet, avail, level):
     if k < 9:
         cond = ['op', d.choice(['>', '<', '>=', '=']),
                 _operand(d, sheet, avail), _operand(d, sheet, avail)]
+        if d.pick(4) == 0:
+            # the condition through AND / OR / NOT (lazily evaluated too)
+            c2 = ['op', d.choice(['>', '<']), _operand(d, sheet, avail),
+                  ['num', str(d.int(0, 9))]]
+            cond = d.choice([['call', 'AND', [cond, c2]],
+                             ['call', 'OR', [cond, c2]],
+                             ['call', 'NOT', [cond]]])
         return ['call', 'IF', [cond, _operand(d, sheet, avail),
                                ['op', '+', _operand(d, sheet, avail),
                                 ['num', '1']]]]
